@@ -74,24 +74,48 @@ type pipeListener struct {
 	l *gonet.UnixListener
 }
 
+// Accept returns the stream of the next connection whose peer
+// completes the exchange of descriptors. A peer which fails to do so
+// (it goes away, or sends something else) loses its connection: this
+// is no failure of the listener.
 func (c pipeListener) Accept() (Stream, error) {
-	conn, err := c.l.AcceptUnix()
-	if err != nil {
-		return nil, err
+	for {
+		conn, err := c.l.AcceptUnix()
+		if err != nil {
+			return nil, err
+		}
+		stream, err := c.exchange(conn)
+		if err != nil {
+			conn.Close()
+			continue
+		}
+		return stream, nil
 	}
+}
+
+// exchange receives the descriptor the peer writes to and sends the
+// one it reads from.
+func (c pipeListener) exchange(conn *gonet.UnixConn) (Stream, error) {
 	fds, err := fd.Get(conn, 1, nil)
 	if err != nil {
 		return nil, err
 	}
 	if len(fds) != 1 {
+		for _, f := range fds {
+			f.Close()
+		}
 		return nil, fmt.Errorf("missing fd")
 	}
 	r, w, err := os.Pipe()
 	if err != nil {
+		fds[0].Close()
 		return nil, err
 	}
 	err = fd.Put(conn, r)
 	if err != nil {
+		fds[0].Close()
+		r.Close()
+		w.Close()
 		return nil, err
 	}
 	return PipeStream(fds[0], w), nil
